@@ -290,4 +290,155 @@ theorem keys_escape :
     keyMemo = escape (strBytes "memo") ∧ keyResult = escape (strBytes "result") ∧
     keyError = escape (strBytes "error") := by decide
 
+/-! ## the encoders write UTF-8 -/
+
+theorem strBytes_append (s t : String) : strBytes (s ++ t) = strBytes s ++ strBytes t := by
+  simp [strBytes, String.toUTF8, String.toByteArray_append]
+
+theorem strBytes_singleton (c : Char) : strBytes (String.singleton c) = String.utf8EncodeChar c := by
+  simp [strBytes, String.toUTF8, String.toByteArray_singleton, List.utf8Encode_singleton]
+
+theorem strBytes_ofList_cons (c : Char) (l : List Char) :
+    strBytes (String.ofList (c :: l)) = String.utf8EncodeChar c ++ strBytes (String.ofList l) := by
+  simp only [strBytes, String.toUTF8, String.toByteArray_ofList]
+  rw [List.utf8Encode_cons, List.utf8Encode_singleton]
+  simp
+
+/-- `bs` is the UTF-8 encoding of a string -/
+def IsText (bs : Bytes) : Prop := ∃ s : String, strBytes s = bs
+
+theorem IsText.append {a b : Bytes} (ha : IsText a) (hb : IsText b) : IsText (a ++ b) := by
+  obtain ⟨s, rfl⟩ := ha; obtain ⟨t, rfl⟩ := hb
+  exact ⟨s ++ t, strBytes_append s t⟩
+
+theorem IsText.nil : IsText [] := ⟨"", by decide⟩
+
+def asciiStr (bs : Bytes) : String := String.ofList (bs.map fun x => Char.ofNat x.toNat)
+
+set_option maxRecDepth 100000 in
+theorem strBytes_asciiStr_single : ∀ b : UInt8, b < 0x80 → strBytes (asciiStr [b]) = [b] := by
+  apply forall_uint8; decide
+
+set_option maxRecDepth 100000 in
+theorem strBytes_asciiStr_escapeByte : ∀ b : UInt8, b < 0x80 → strBytes (asciiStr (escapeByte b)) = escapeByte b := by
+  apply forall_uint8; decide
+
+theorem isText_ascii (l : Bytes) (h : ∀ b ∈ l, b < 0x80) : IsText l := by
+  induction l with
+  | nil => exact IsText.nil
+  | cons b r ih =>
+    have : b :: r = [b] ++ r := rfl
+    rw [this]
+    exact IsText.append ⟨_, strBytes_asciiStr_single b (h b (by simp))⟩ (ih fun x hx => h x (by simp [hx]))
+
+set_option maxRecDepth 100000 in
+theorem escapeByte_high : ∀ b : UInt8, 0x80 ≤ b → escapeByte b = [b] := by
+  apply forall_uint8; decide
+
+theorem escape_append (a b : Bytes) : escape (a ++ b) = escape a ++ escape b := by simp [escape]
+
+set_option maxRecDepth 100000 in
+theorem high_bits : ∀ x : UInt8, (0x80 ≤ x &&& 0x3f ||| 0x80) ∧ (0x80 ≤ x &&& 0x1f ||| 0xc0) ∧
+    (0x80 ≤ x &&& 0x0f ||| 0xe0) ∧ (0x80 ≤ x &&& 0x07 ||| 0xf0) := by
+  apply forall_uint8; decide
+
+theorem isText_escape_char (c : Char) : IsText (escape (String.utf8EncodeChar c)) := by
+  have hself : IsText (String.utf8EncodeChar c) := ⟨String.singleton c, strBytes_singleton c⟩
+  rcases c.utf8Size_eq with h | h | h | h
+  · rw [String.utf8EncodeChar_eq_singleton h]
+    have hlt : c.val.toUInt8 < 0x80 := by
+      have : c.val.toNat ≤ 127 := by
+        have := (Char.utf8Size_eq_one_iff).1 h
+        simpa [UInt32.le_iff_toNat_le] using this
+      rw [UInt8.lt_iff_toNat_lt, UInt32.toNat_toUInt8]
+      have : (128 : UInt8).toNat = 128 := rfl
+      omega
+    have : escape [c.val.toUInt8] = escapeByte c.val.toUInt8 := by simp [escape]
+    rw [this]
+    exact ⟨_, strBytes_asciiStr_escapeByte _ hlt⟩
+  · rw [String.utf8EncodeChar_eq_cons_cons h] at hself ⊢
+    simp only [escape, List.flatMap_cons, List.flatMap_nil, List.append_nil]
+    rw [escapeByte_high _ (high_bits _).2.1, escapeByte_high _ (high_bits _).1]
+    exact hself
+  · rw [String.utf8EncodeChar_eq_cons_cons_cons h] at hself ⊢
+    simp only [escape, List.flatMap_cons, List.flatMap_nil, List.append_nil]
+    rw [escapeByte_high _ (high_bits _).2.2.1, escapeByte_high _ (high_bits _).1, escapeByte_high _ (high_bits _).1]
+    exact hself
+  · rw [String.utf8EncodeChar_eq_cons_cons_cons_cons h] at hself ⊢
+    simp only [escape, List.flatMap_cons, List.flatMap_nil, List.append_nil]
+    rw [escapeByte_high _ (high_bits _).2.2.2, escapeByte_high _ (high_bits _).1, escapeByte_high _ (high_bits _).1,
+      escapeByte_high _ (high_bits _).1]
+    exact hself
+
+theorem isText_escape (s : String) : IsText (escape (strBytes s)) := by
+  rw [← String.ofList_toList (s := s)]
+  generalize s.toList = l
+  induction l with
+  | nil => exact ⟨"", by decide⟩
+  | cons c r ih =>
+    rw [strBytes_ofList_cons, escape_append]
+    exact IsText.append (isText_escape_char c) ih
+
+
+theorem isText_quote : IsText [0x22] := isText_ascii _ (by decide)
+
+theorem isText_encStr (s : String) : IsText (encStr s) := by
+  have : encStr s = [0x22] ++ (escape (strBytes s) ++ [0x22]) := rfl
+  rw [this]
+  exact IsText.append isText_quote (IsText.append (isText_escape s) isText_quote)
+
+set_option maxRecDepth 100000 in
+theorem isDigit_lt : ∀ b : UInt8, isDigit b = true → b < 0x80 := by
+  apply forall_uint8; decide
+
+theorem isText_amountTok (n : Nat) : IsText (amountTok n) := by
+  have : amountTok n = [0x22] ++ (decDigits n ++ [0x22]) := rfl
+  rw [this]
+  exact IsText.append isText_quote (IsText.append
+    (isText_ascii _ fun b hb => isDigit_lt b (decDigits_mem n b hb).1) isText_quote)
+
+theorem isText_field (key val : Bytes) (hk : ∀ b ∈ key, b < 0x80) (hv : IsText val) : IsText (field key val) := by
+  have : field key val = [0x22] ++ (key ++ ([0x22, 0x3a] ++ val)) := rfl
+  rw [this]
+  exact IsText.append isText_quote (IsText.append (isText_ascii _ hk) (IsText.append (isText_ascii _ (by decide)) hv))
+
+theorem isText_encodePacketBytes (p : Packet) : IsText (encodePacketBytes p) := by
+  have hc : IsText [0x2c] := isText_ascii _ (by decide)
+  have hb : IsText [0x7d] := isText_ascii _ (by decide)
+  have ho : IsText [0x7b] := isText_ascii _ (by decide)
+  have cons : ∀ (b : UInt8) (l : Bytes), b :: l = [b] ++ l := fun _ _ => rfl
+  unfold encodePacketBytes
+  rw [cons 0x7b, cons 0x2c, cons 0x2c, cons 0x2c]
+  refine IsText.append ho (IsText.append (isText_field _ _ (by decide) (isText_amountTok _)) (IsText.append hc
+    (IsText.append (isText_field _ _ (by decide) (isText_encStr _)) (IsText.append hc
+      (IsText.append (isText_field _ _ (by decide) (isText_encStr _)) (IsText.append hc
+        (IsText.append (isText_field _ _ (by decide) (isText_encStr _)) (IsText.append ?_ hb))))))))
+  cases p.memo with
+  | none => exact IsText.nil
+  | some m =>
+    simp only
+    rw [cons 0x2c]
+    exact IsText.append hc (isText_field _ _ (by decide) (isText_encStr _))
+
+theorem isText_encodeAckBytes (a : Ack) : IsText (encodeAckBytes a) := by
+  have hb : IsText [0x7d] := isText_ascii _ (by decide)
+  have ho : IsText [0x7b] := isText_ascii _ (by decide)
+  have cons : ∀ (b : UInt8) (l : Bytes), b :: l = [b] ++ l := fun _ _ => rfl
+  cases a with
+  | success => exact isText_ascii _ (by decide)
+  | error t =>
+    unfold encodeAckBytes
+    rw [cons 0x7b]
+    exact IsText.append ho (IsText.append (isText_field _ _ (by decide) (isText_encStr _)) hb)
+
+theorem strBytes_of_strOfBytes {bs : Bytes} {s : String} (h : strOfBytes bs = some s) : strBytes s = bs := by
+  simp only [strOfBytes, String.fromUTF8?] at h
+  split at h
+  · injection h with h; subst h; simp [strBytes, String.toUTF8, String.fromUTF8]
+  · simp at h
+
+theorem strBytes_bytesToString {bs : Bytes} (h : IsText bs) : strBytes (bytesToString bs) = bs := by
+  obtain ⟨s, rfl⟩ := h
+  simp [bytesToString, strOfBytes_strBytes]
+
 end CwPlus.Json
